@@ -132,6 +132,9 @@ class PermutationReciprocalTransformer(BaseReciprocalTransformer):
         for u in perm_keys:
             perm[u] = lin[perm[u]]
         self.permutation_ = perm
+        # drops the nearest-neighbour index built for a previous permutation
+        self.knn_ = None
+        self.knn_perm_ = None
         return self
 
     def _check_is_fitted(self):
@@ -152,7 +155,7 @@ class PermutationReciprocalTransformer(BaseReciprocalTransformer):
         return res
 
     def _find_closest(self, cl):
-        if not hasattr(self, "knn_"):
+        if getattr(self, "knn_", None) is None:
             self.knn_ = NearestNeighbors(n_neighbors=1, algorithm="kd_tree")
             self.knn_perm_ = numpy.array(list(self.permutation_))
             self.knn_perm_ = self.knn_perm_.reshape((len(self.knn_perm_), 1))
